@@ -19,7 +19,7 @@ func init() {
 	core.Register(&core.Check{
 		ID:    "C07",
 		Level: "exploration",
-		Rule: "accepted sources as in C06 plus enumerated runs of statements/comments/blank lines/func blocks; for each: Format twice, 4-8 variants that differ only in the amount of optional horizontal whitespace and the length of blank-line runs, closed-form layout rules, and (sampled) evy fmt -c; " +
+		Rule: "accepted sources as in C06 plus enumerated runs of statements/comments/blank lines/func blocks and 160 enumerated multi-line literals (blank-line runs and comments in every position, five indentation contexts); for each: Format twice, 4-8 variants that differ only in the amount of optional horizontal whitespace and the length of blank-line runs, closed-form layout rules, and (sampled) evy fmt -c; " +
 			"distinct = distinct source texts for which at least one variant differs from the source",
 		Assumptions: []string{
 			"variants change only the amount of whitespace where whitespace is already present, whitespace at line starts/ends and before end-of-line comments, and the length (>=1 blank line stays >=1) of blank-line runs",
